@@ -142,6 +142,11 @@ Extreme ==
           n \in {NaNE, InfE, EUn("-", InfE), ENum(Fin(1, 1)), EUn("-", Num(1)), Num(0), ENum(Big)}}
   \cup {P1(<<SInfer("s", EStr(<<97, 228>>)), Pr(<<EIdx(EVar("s", T_str), n)>>)>>) : n \in Ext}
   \cup {P1(<<SInfer("s", EStr(<<97, 228>>)), Pr(<<ESlice(EVar("s", T_str), <<n>>, <<>>)>>)>>) : n \in Ext}
+  \* every slice bound around the ends of an array and a string of length 3 (one beyond included), in both positions
+  \cup {P1(<<SInfer("a", EArr(<<Num(1), Num(2), Num(3)>>)), SInfer("s", EStr(<<97, 228, 99>>)),
+             Pr(<<ECallB("len", <<ESlice(EVar("a", TArr(T_num)), lo, hi)>>)>>), Pr(<<ESlice(EVar("s", T_str), lo, hi)>>)>>) :
+          lo \in {<<>>} \cup {<<IF i < 0 THEN EUn("-", Num(-i)) ELSE Num(i)>> : i \in -5..5}, hi \in {<<>>} \cup {<<IF i < 0 THEN EUn("-", Num(-i)) ELSE Num(i)>> : i \in {-5, -4, -3, 0, 3, 4, 5}}}
+  \cup {P1(<<SInfer("a", EArr(<<Num(1), Num(2), Num(3)>>)), SAsg(EIdx(EVar("a", TArr(T_num)), IF i < 0 THEN EUn("-", Num(-i)) ELSE Num(i)), Num(9)), Pr(<<EVar("a", TArr(T_num))>>)>>) : i \in -5..5}
   \cup {P1(<<SFor("i", "num", <<n>>, <<Pr(<<EBin("==", EVar("i", T_num), EVar("i", T_num))>>), SBrk>>), Pr(<<Num(1)>>)>>) : n \in Ext}
   \cup {P1(<<SFor("", "num", <<Num(0), Num(2), n>>, <<Pr(<<Num(7)>>), SBrk>>), Pr(<<Num(1)>>)>>) : n \in Ext}
   \cup {P1(<<Pr(<<ECallB("hsl", xs)>>)>>) : xs \in {<<>>, <<Num(0)>>, <<Num(360), Num(100), Num(100), Num(100)>>, <<Num(361)>>, <<NaNE>>, <<Num(1), NaNE>>, <<Num(1), Num(2), Num(3), Num(4), Num(5)>>, <<EUn("-", Num(1))>>}}
